@@ -752,6 +752,28 @@ func (r *Ref) strictVarPosition(name string, loc *ast.Type) bool {
 	return vd.DefaultValue == nil || vd.DefaultValue.Kind == ast.NullValue
 }
 
+// Target finds the field whose arguments a request exercises: the first root field, or —
+// when that root field takes no arguments and selects an object (the probe's `box`) — the
+// first field selected on that object. prefix is the response path of the target field.
+func Target(schema *ast.Schema, doc *ast.QueryDocument) (prefix []string, f *ast.Field, fd *ast.FieldDefinition) {
+	respKey := func(f *ast.Field) string {
+		if f.Alias != "" {
+			return f.Alias
+		}
+		return f.Name
+	}
+	f = doc.Operations[0].SelectionSet[0].(*ast.Field)
+	fd = schema.Query.Fields.ForName(f.Name)
+	prefix = []string{respKey(f)}
+	for len(fd.Arguments) == 0 && len(f.SelectionSet) > 0 {
+		parent := schema.Types[fd.Type.Name()]
+		f = f.SelectionSet[0].(*ast.Field)
+		fd = parent.Fields.ForName(f.Name)
+		prefix = append(prefix, respKey(f))
+	}
+	return prefix, f, fd
+}
+
 // Evaluate runs CoerceVariableValues and CoerceArgumentValues for the first root field of
 // the (single) operation of doc.
 func (r *Ref) Evaluate(doc *ast.QueryDocument, rawVars map[string]any) Expect {
@@ -780,16 +802,11 @@ func (r *Ref) Evaluate(doc *ast.QueryDocument, rawVars map[string]any) Expect {
 	if !reqOK {
 		return Expect{RequestError: true, Reject: true, ErrPaths: r.VarErr, PanicOK: r.PanicOK}
 	}
-	f := op.SelectionSet[0].(*ast.Field)
-	key := f.Alias
-	if key == "" {
-		key = f.Name
-	}
-	fd := r.Schema.Query.Fields.ForName(f.Name)
+	prefix, f, fd := Target(r.Schema, doc)
 	args := map[string]SV{}
 	good := true
 	for _, ad := range fd.Arguments {
-		path := []string{key, ad.Name}
+		path := cp(prefix, ad.Name)
 		a := f.Arguments.ForName(ad.Name)
 		var val SV
 		has := false
@@ -819,7 +836,7 @@ func (r *Ref) Evaluate(doc *ast.QueryDocument, rawVars map[string]any) Expect {
 	}
 	for _, a := range f.Arguments {
 		if fd.Arguments.ForName(a.Name) == nil {
-			r.failField([]string{key, a.Name})
+			r.failField(cp(prefix, a.Name))
 			good = false
 		}
 	}
